@@ -193,15 +193,18 @@ func staleBackgroundLoad(c *vk.Ctx, prop string) int {
 		listN, listN1 := rw.build("good", []string{"x", "z"}), rw.build("good", []string{"y", "z"})
 		var mu sync.Mutex
 		reqs := 0
+		setup := true
 		gate, inGate := make(chan struct{}), make(chan struct{})
 		rw.org.Set(pathRepo, origin.Behaviour{Kind: "func", Func: func([]byte) (int, []byte) {
 			mu.Lock()
+			if setup { // while the entry is being made known (however often the loader asks), the origin is out of order
+				mu.Unlock()
+				return 200, []byte("<html>maintenance</html>")
+			}
 			reqs++
-			r := reqs
+			r := reqs + 1
 			mu.Unlock()
 			switch r {
-			case 1:
-				return 200, []byte("<html>maintenance</html>")
 			case 2:
 				close(inGate)
 				select {
@@ -215,6 +218,9 @@ func staleBackgroundLoad(c *vk.Ctx, prop string) int {
 		rep := map[string]any{"backend": backendName(disk), "signature_validation_mode": rw.w.Cfg.Sig}
 		r0 := rw.w.HandshakeTimeout(rw.chains["driver"], 60*time.Second)
 		rep["first_handshake"] = r0
+		mu.Lock()
+		setup = false
+		mu.Unlock()
 		passDone := make(chan struct{})
 		go func() { defer close(passDone); rw.w.RefreshAll() }()
 		select {
